@@ -65,6 +65,9 @@ func (r *ComDoc) readDir() error {
 	}
 	r.Files = files
 	r.rootStorage = rootIndex
+	if err := r.checkDirTree(); err != nil {
+		return err
+	}
 	rootFiles, err := r.ListDir(nil)
 	if err != nil {
 		return err
@@ -72,6 +75,34 @@ func (r *ComDoc) readDir() error {
 	r.rootFiles = make([]int, 0, len(r.Files))
 	for _, f := range rootFiles {
 		r.rootFiles = append(r.rootFiles, f.Index)
+	}
+	return nil
+}
+
+// Walk the whole directory tree to make sure that every entry belongs to at
+// most one storage. Otherwise a storage could contain itself, and recursively
+// listing the tree would never finish.
+func (r *ComDoc) checkDirTree() error {
+	seen := make([]bool, len(r.Files))
+	seen[r.rootStorage] = true
+	pending := []*DirEnt{r.RootStorage()}
+	for len(pending) > 0 {
+		i := len(pending) - 1
+		storage := pending[i]
+		pending = pending[:i]
+		files, err := r.ListDir(storage)
+		if err != nil {
+			return err
+		}
+		for _, item := range files {
+			if seen[item.Index] {
+				return fmt.Errorf("directory entry %d is referenced more than once", item.Index)
+			}
+			seen[item.Index] = true
+			if item.Type == DirStorage || item.Type == DirRoot {
+				pending = append(pending, item)
+			}
+		}
 	}
 	return nil
 }
